@@ -504,12 +504,26 @@ def _execute_single(scenario, run):
             if data is None:
                 return
             if r.random() < 0.2:
-                nid, ip, port = _rb(r, 48), f"{r.randint(0, 255)}.{r.randint(0, 255)}.{r.randint(0, 255)}.{r.randint(0, 255)}", r.randint(1, 65535)
-                c = bytes(make_compact_address(nid, ip, port))
+                nid, ip = _rb(r, 48), r.choice([
+                    f"{r.randint(0, 255)}.{r.randint(0, 255)}.{r.randint(0, 255)}.{r.randint(0, 255)}",
+                    f"{r.randint(1, 223)}.{r.randint(0, 255)}.{r.randint(0, 255)}.{r.randint(0, 255)}",
+                    '255.255.255.255', '0.0.0.0', '1.0.0.0', '0.0.0.1', '127.0.0.1', '10.255.0.255'])
+                port = r.choice([r.randint(1, 65535), r.randint(1, 65535), r.randint(1, 65535), 1, 2, 255, 256, 1023,
+                                 1024, 32767, 32768, 65534, 65535])
                 run.probes['compact_roundtrip'] += 1
-                if tuple(decode_compact_address(c)) != (nid, ip, port) or bref.compact_decode(c) != (nid, ip, port) \
+                if port in (1, 65535):
+                    run.probes['compact_port_boundary'] += 1
+                try:
+                    c = bytes(make_compact_address(nid, ip, port))
+                    back = tuple(decode_compact_address(c))
+                except Exception as e:  # noqa
+                    run.violation('C17.compact_mismatch', f'compact address of {ip}:{port} does not round-trip: '
+                                  f'{type(e).__name__}: {e}', step='raise')
+                    return
+                if back != (nid, ip, port) or bref.compact_decode(c) != (nid, ip, port) \
                         or bref.compact_encode(nid, ip, port) != c:
-                    run.violation('C17.compact_mismatch', f'compact address of {ip}:{port} does not round-trip')
+                    run.violation('C17.compact_mismatch', f'compact address of {ip}:{port} does not round-trip',
+                                  step='value')
                     return
             how = op['op']
             if how == 'valid':
